@@ -10,6 +10,8 @@ pub mod c11;
 pub mod c12;
 pub mod c13;
 pub mod c14;
+pub mod c16;
+pub mod c17;
 pub mod miri;
 
 use crate::report::{Report, Tier};
@@ -133,6 +135,7 @@ pub fn plan(id: &str) -> Option<Plan> {
             engines: vec![
                 Engine { name: "sim", salt: 1, quick: 6000, thorough: 400_000, serial: false, run: Box::new(|s, t| c11::scenario(s, t, false)) },
                 Engine { name: "stress", salt: 2, quick: 2, thorough: 10, serial: true, run: Box::new(|s, t| c11::stress(s, t.pick(20_000, 100_000))) },
+                Engine { name: "stress-threads", salt: 4, quick: 4, thorough: 24, serial: true, run: Box::new(|s, t| c11::stress_threads(s, t.pick(20_000, 100_000))) },
                 Engine { name: "miri", salt: 3, quick: 8, thorough: 64, serial: false, run: Box::new(|s, t| miri::run("C11", s, t.pick(2, 4), None, 0.0)) },
             ],
             extra: None,
@@ -178,6 +181,22 @@ pub fn plan(id: &str) -> Option<Plan> {
                 Engine { name: "sim-outage", salt: 2, quick: 8, thorough: 64, serial: false, run: Box::new(|s, t| c14::outage(s, t)) },
             ],
             extra: None,
+        },
+        "C16" => Plan {
+            id: "C16",
+            rule: "scenario = reconnect layer (policy none/fixed/exponential/jittered/custom/default, half of them wrapped by a logging adapter; max_attempts 0,1,2,5,unlimited; retry_on_reconnect on/off; predicate on/off; with_defaults) + 1-5 sequential requests with outcome scripts <=9 over {ok, reconnectable, other} and latencies; a sampler reads the published state every 500us; oracle per request over the inner-call log; non-trivial iff >=1 retry and >=1 request ended on an error path; distinct = (attempt instants, outcomes, config) signature",
+            assumptions: BASE_ASSUMPTIONS.to_vec(),
+            floor: 50,
+            engines: vec![Engine { name: "sim", salt: 1, quick: 4000, thorough: 200_000, serial: false, run: Box::new(|s, t| c16::scenario(s, t)) }],
+            extra: None,
+        },
+        "C17" => Plan {
+            id: "C17",
+            rule: "grid of 6 strategies x {no predicate via shortcut constructor, no predicate via builder, accept-all predicate, class predicate} x {backup ok, backup failing} = 48 configurations, each walked by the seeds (every configuration is run with inner Ok, handled error and rejected error, plus random payloads/latencies); oracle = pure reference function of (strategy, predicate, request, inner outcome, backup outcome) and the invocation log of the strategy closures; non-trivial iff the strategy was actually invoked; distinct = (grid index, payloads) signature",
+            assumptions: BASE_ASSUMPTIONS.to_vec(),
+            floor: 40,
+            engines: vec![Engine { name: "sim", salt: 1, quick: 2000, thorough: 100_000, serial: false, run: Box::new(|s, t| c17::scenario(s, t, None)) }],
+            extra: Some(|_t, _s| serde_json::json!({"grid_size": c17::GRID, "grid_note": "scenario seeds are mapped onto the 48-cell grid by seed mod 1000003 mod 48; buckets in engines.sim list the per-cell counts"})),
         },
         _ => return None,
     })
